@@ -216,3 +216,13 @@ Example coll_example :
   /\ coll_replace false false false [1; 2] [2] = Repl false [2]
   /\ coll_replace true false false [1; 2] [5] = NoChange.
 Proof. repeat split. Qed.
+
+(* review mode computes every change with all update flags switched on: the change of category fix then holds exactly the tested values,
+   so approving fix alone drops a member that was never tested (known finding F-89) *)
+Lemma review_fix_alone_drops_untested :
+  exists (old tested nv : list Z) (o : Z),
+    coll_replace false true false old tested = Repl true nv /\ In o old /\ ~ In o nv.
+Proof.
+  exists [1; 2], [2; 3], [2; 3], 1. split; [reflexivity|]. split; [left; reflexivity|].
+  intros [H|[H|[]]]; discriminate.
+Qed.
